@@ -437,3 +437,32 @@ func (g *Grammar) Kinds() map[string]bool {
 	}
 	return out
 }
+
+// RecursiveNTs: nonterminals that can reach themselves through references (guarded or not).
+// Only these have to be wrapped in Memoize.
+func (g *Grammar) RecursiveNTs() []bool {
+	n := len(g.NTs)
+	reach := make([][]bool, n)
+	for i := range reach {
+		reach[i] = make([]bool, n)
+		Walk(g.NTs[i], func(e *Expr) {
+			if e.Op == OpNT {
+				reach[i][e.NT] = true
+			}
+		})
+	}
+	for k := 0; k < n; k++ {
+		for i := 0; i < n; i++ {
+			for j := 0; j < n; j++ {
+				if reach[i][k] && reach[k][j] {
+					reach[i][j] = true
+				}
+			}
+		}
+	}
+	out := make([]bool, n)
+	for i := range out {
+		out[i] = reach[i][i]
+	}
+	return out
+}
